@@ -159,6 +159,7 @@ type Worker struct {
 	smallExpBits int
 	bigStripMax  int
 	orderHint    bool
+	lazyCmp      bool
 	b64prov  map[*Term]*Term
 	ufApps   map[string][]*Term
 	model    *Model
